@@ -1,6 +1,8 @@
 """Mini-interpreter for the subset of the Wolfram Language needed to read binary data: BinaryReadList, ArrayReshape, lists,
 Part [[ ]], Span ;;, rules, Set / SetDelayed with pattern arguments, Module, CompoundExpression.  Semantics follow the
 Wolfram Language reference pages of each symbol."""
+import re
+
 import numpy as np
 
 from .adapters import Adapter
@@ -13,6 +15,7 @@ TYPES = {'Byte': 'u1', 'Integer8': 'i1', 'Integer16': 'i2', 'Integer32': 'i4', '
          'Complex64': 'c8', 'Complex128': 'c16'}
 OTHER_TYPES = {'Integer24', 'Integer128', 'UnsignedInteger24', 'UnsignedInteger128', 'Real128', 'Complex256', 'Character8',
                'Character16', 'Character32', 'TerminatedString', 'Real16'}
+_MID = re.compile(r'[A-Za-z$][A-Za-z0-9$]*')       # the underscore is the Blank pattern, not a letter
 UNMODELLED = {'Partition', 'Transpose', 'Dimensions', 'Length', 'Table', 'Take', 'Drop', 'Flatten', 'Print', 'Import', 'BinaryRead',
               'OpenRead', 'Close', 'Reverse', 'Range', 'Map', 'If', 'Part', 'Span', 'Block', 'With', 'First', 'Last', 'Developer'}
 
@@ -52,7 +55,7 @@ class Parser:
     """Newlines end an expression at top level when it is complete (the front end / script reader rule)."""
 
     def __init__(self, src):
-        self.s = Stream(tokenize(src, block_comments=(('(*', '*)'),), strings=('"',), ops=OPS, nested_block_comments=True))
+        self.s = Stream(tokenize(src, block_comments=(('(*', '*)'),), strings=('"',), ops=OPS, nested_block_comments=True, id_re=_MID))
         self.depth = 0
 
     def skip_nl(self):
